@@ -175,6 +175,12 @@ func (rn *runner) boundarySweep() {
 	}
 	rn.sweepReq("v2Insert", "v2", "alice", "BASIC", "POST", "base1", "/points", Obj("points", Arr(Obj("_id", Str(g.uuid()), "meta", Obj("kind", Int(5))))), false, "stored.nested.type")
 	rn.sweepReq("v2Insert", "v2", "alice", "BASIC", "POST", "base1", "/points", Obj("points", Arr(Obj("_id", Str(g.uuid()), "meta", Str("flat")))), true, "stored.nested.notmap")
+	// ---- malformed MessagePack the decoder itself trips over: a repeated key of an interface typed field
+	dupMeta := func() *N {
+		return Obj("points", Arr(Obj("id", Str(g.uuid()), "vector", g.vec(4), "metadata", Obj("a", Int(1)), "metadata", Null())))
+	}
+	rn.sweepReq("v1Insert", "v1", "alice", "BASIC", "POST", "v1col", "/points", dupMeta(), true, "msgpack.duplicate-interface-key")
+	rn.sweepReq("v1Update", "v1", "alice", "BASIC", "PUT", "v1col", "/points", dupMeta(), true, "msgpack.duplicate-interface-key")
 	// ---- search
 	leafV := func(mod func(o *N)) *N {
 		o := Obj("vector", g.vec(4), "operator", Str("near"), "searchSize", Int(75), "limit", Int(10))
